@@ -13,6 +13,7 @@ while == is False, the bare-number rule; float registry: order away from ties.
 Violation keys:  <law>:<region>:<units of a>,<units of b>
   law    in eq-spec | eq-raises | symmetry | reflexivity | ne | transitivity | hash | trichotomy | order | cross-dim
             | number-rule | unit-eq | unit-order | float-order | bool
+  a law suffixed @<config> was observed in a non-default registry configuration (autoconvert, autoconvert-live)
   region in both-zero-offset   (both magnitudes zero and an offset unit involved: F1)
             delta-vs-offset    (an offset unit against a delta_ unit: F85)
             system-<name>       (hash only: under default system <name>, or 'switch:<name>' for a live default_system switch)
@@ -244,9 +245,19 @@ def region(ph, a, b):
 
 
 # ------------------------------------------------------------------ the world: registry + laws
+CONFIGS = {                       # registry configurations besides the default one
+    "autoconvert": dict(kw={"autoconvert_offset_to_baseunit": True}, live={}),
+    "autoconvert-live": dict(kw={}, live={"autoconvert_offset_to_baseunit": True}),   # switched on a live registry
+}
+
+
 class World:
-    def __init__(self, nit=F):
-        self.ureg = regk.registry(nit)
+    def __init__(self, nit=F, config=None):
+        self.config = config
+        c = CONFIGS.get(config, dict(kw={}, live={}))
+        self.ureg = regk.registry(nit, **c["kw"])
+        for k, v in c["live"].items():
+            setattr(self.ureg, k, v)
         self.ph = Phys(self.ureg)
 
     def q(self, m, units):
@@ -551,6 +562,9 @@ def run(ck):
         "root units with gram renamed to kilogram; the model hashes root units and only hash *equality* is compared)",
         "units whose factor goes through a non-integer power (planck_*, franklin, alpha-dependent) are outside the exact clauses",
         "agreement of <, > with the order of root-unit magnitudes is claimed for positively scaled units only (the registry has negative constants such as electron_g_factor); exactly-one-of and model correspondence are checked for all",
+        "registry mode autoconvert_offset_to_baseunit=True (constructor and live switch): Quantity-Quantity ==, ordering, hash of "
+        "multiplicative and single offset units are compared with the same model (C05_autoconvert_mode_irrelevant); bare-number "
+        "branches and compound offset units in that mode are C06's",
         "logarithmic units are outside the model (C06); offset units in compound position only through their error class",
         "the model hashes in root units of the default system only; under the other default systems (cgs, imperial, US, SI, atomic, "
         "Planck, None, and default_system assigned on a live registry before first use) == => equal hash / set / dict lookup is an "
@@ -585,15 +599,19 @@ def run(ck):
         for key, desc in fl:
             fails.append((key, desc, replay))
 
-    def do_pair(ua, ub, rows, kind, want_hash=True):
+    def do_pair(ua, ub, rows, kind, want_hash=True, world=None):
         """rows: list of (x, y). Observes, applies the laws, emits one KPair case."""
+        ww = world or w
         terms = []
         for x, y in rows:
             a, b = (x, ua), (y, ub)
-            o = w.observe(a, b, want_hash)
+            o = ww.observe(a, b, want_hash)
             terms.append(row_term(a, b, o))
-            record(w.pair_laws(a, b, o), {"law": "pair", "a": [mstr(x), {k: str(v) for k, v in ua.items()}],
-                                          "b": [mstr(y), {k: str(v) for k, v in ub.items()}]})
+            fl = ww.pair_laws(a, b, o)
+            if ww.config:
+                fl = [(f"{k.split(':', 1)[0]}@{ww.config}:{k.split(':', 1)[1]}", f"[registry configuration {ww.config}] {d}") for k, d in fl]
+            record(fl, {"law": "pair", "config": ww.config, "a": [mstr(x), {k: str(v) for k, v in ua.items()}],
+                        "b": [mstr(y), {k: str(v) for k, v in ub.items()}]})
             ck.case(key=(kind, ustr(ua), ustr(ub), mstr(x), mstr(y)), nontrivial=(ua != ub or x != y),
                     sample={"a": f"{mstr(x)} {ustr(ua)}", "b": f"{mstr(y)} {ustr(ub)}", "==": o["eq"].js(),
                             "<,<=,>,>=": o["cmp"].js(), "hash_eq": o.get("hash_eq")} if len(ck.samples) < 6 and ua != ub else None)
@@ -879,7 +897,44 @@ def run(ck):
                               {"law": "float", "a": [repr(x), a], "b": [repr(y), b]}))
         ck.count("float-order", nfl)
 
-        # ---- (10) every default system (incl. a live switch): == => same hash, set and dict lookup; (11) contexts
+        # ---- (12) registry mode autoconvert_offset_to_baseunit (constructor argument and live switch): between two
+        #      quantities ==, ordering and hashing of multiplicative and single offset units do not depend on it
+        #      (C05_autoconvert_mode_irrelevant), so the same model and the same laws apply
+        stage[0] = '(12) registry mode autoconvert_offset_to_baseunit'
+        for config in CONFIGS:
+            wc = World(F, config)
+            for a in temps:
+                for b in temps:
+                    ua, ub = {a: F(1)}, {b: F(1)}
+                    rows = [(0, 0), (1, 1), (0, 1), (F(27315, 100), 0), (0, F(27315, 100)), (NAN, 0)]
+                    for x in (0, 32, F(-45967, 100)):
+                        y = wc.ph.equalise(x, ua, ub)
+                        if y is not None:
+                            rows += [(x, y)]
+                    do_pair(ua, ub, rows, "mode:" + config, world=wc)
+            for a, b in rng.sample(pairs, 400 if thorough else 40):
+                ua, ub = {a: F(1)}, {b: F(1)}
+                do_pair(ua, ub, [(0, 0), (1, 1), (0, 1)] + std_rows(ua, ub)[-2:], "mode:" + config, world=wc)
+            for ua in fam:
+                do_pair(ua, {}, [(0, 0), (1, 1), (0, 1)], "mode:" + config, world=wc)
+            for t in ("degree_Celsius", "kelvin"):
+                do_pair({t: F(1)}, {"meter": F(1)}, [(0, 0), (1, 1)], "mode:" + config, want_hash=False, world=wc)
+            # zero in a logarithmic unit is not zero (float registry: Fractions have no log); equality only
+            import warnings
+            warnings.filterwarnings("ignore", category=RuntimeWarning)      # log(0) while converting 0 W to dBm
+            wl = World(float, config)
+            for (ua, ub) in (("decibel", ""), ("decibelmilliwatt", "milliwatt"), ("decibelmilliwatt", "watt"), ("decibelwatt", "watt"), ("octave", "")):
+                for qa, qb in ((wl.ureg.Quantity(0.0, ua), wl.ureg.Quantity(0.0, ub)), (wl.ureg.Quantity(0.0, ub), wl.ureg.Quantity(0.0, ua))):
+                    o = Obs(lambda: bool(qa == qb))          # numpy bool in the float registry
+                    ck.case(key=("mode-log", config, ua, ub))
+                    if o.val is not False:
+                        fails.append((f"eq-spec@{config}:log-zero:{ua},{ub or 'dimensionless'}",
+                                      f"[registry configuration {config}] {qa} == {qb} is {o.js()}: zero in a logarithmic unit is the reference level, not zero",
+                                      {"law": "none", "config": config, "a": [0, ua], "b": [0, ub]}))
+        ck.count("mode-configs", len(CONFIGS))
+
+
+    # ---- (10) every default system (incl. a live switch): == => same hash, set and dict lookup; (11) contexts
         stage[0] = '(10) every default system (incl. a live switch): == => same has'
         run_systems(ck, fails, thorough)
         run_contexts(ck, fails)
@@ -933,7 +988,7 @@ def replay(ck, path):
 
     def spec(t):
         return (mparse(t[0]), {k: F(v) for k, v in t[1].items()})
-    w = World(F)
+    w = World(F, rp.get("config"))
     fl = []
     if rp["law"] == "pair":
         a, b = spec(rp["a"]), spec(rp["b"])
